@@ -780,6 +780,7 @@ var outcomeText = [nOutcomes]string{"unspecified", "must: matched, values return
 // escaped literal letters: the special characters of the syntax written with the documented escape
 // ("\\:" in a Go string). In the path the character stands for itself.
 var escLits = []lit{{":", `\:`}, {"a:b", `a\:b`}, {"*a", `\*a`}, {"a+", `a\+`}}
+var escLitsBare = []lit{{"", ""}, {"*", `\*`}, {"+", `\+`}, {":", `\:`}}
 var escLitsReduced = []lit{{"", ""}, {"a", ""}, {":", `\:`}, {"a*b", `a\*b`}}
 
 // values spelled with the special characters of the syntax (in a path they are ordinary characters)
@@ -831,12 +832,14 @@ func main() {
 	// the empty literal only (delimiters and parameters); thorough: all patterns of <=5 tokens, one more value.
 	maxTok, extraTok := 4, 5
 	values := []string{"", "x", "xy", "X", "x y", "x-y", "x.y", "x/y"}
+	escTokBare := 3               // escaped-literal family, literals that are one bare escaped special character
 	escTok, escTokReduced := 3, 4 // escaped-literal family: full alphabet up to escTok tokens, reduced alphabet up to escTokReduced
 	longMax := 3                  // long family: patterns with 3..longMax parameters
 	if !r.Quick() {
 		maxTok, extraTok = 5, 0
 		values = append(values, "a")
 		escTok, escTokReduced = 4, 4
+		escTokBare = 4
 		longMax = 4
 	}
 	onlyFam := os.Getenv("C03_FAMILY") // debug knob: run one family only (main, escaped, long)
@@ -900,6 +903,19 @@ func main() {
 		for _, p := range enumPatterns(escTokReduced, escLitsReduced) {
 			if p.esc && len(p.toks) > escTok {
 				p.fam = famEscReduced
+				pats = append(pats, p)
+				nEscPats++
+			}
+		}
+		// literals that are NOTHING BUT one escaped special character (`/\*`, `/\+/:p`, `/a-\:`): the text with the
+		// escape characters removed is then spelled like a bare wildcard / parameter
+		escSeen := map[string]bool{}
+		for _, p := range pats {
+			escSeen[p.text] = true
+		}
+		for _, p := range enumPatterns(escTokBare, escLitsBare) {
+			if p.esc && !escSeen[p.text] {
+				p.fam = famEsc
 				pats = append(pats, p)
 				nEscPats++
 			}
@@ -1222,12 +1238,12 @@ func main() {
 		Coverage: map[string]any{
 			"evaluations":         r.P.Counters["evaluations"],
 			"distinct_nontrivial": r.P.Counters["nontrivial"],
-			"rule": fmt.Sprintf("family main: every delimited pattern of <=%d tokens (first token '/'+lit, then any of 12 literal tokens {/,-,.}x%q or a parameter {:p,:p?,*,+} never directly after a parameter)%s x every assignment of %q to its parameters (patterns of <=3 tokens also %q, and each of them a second time registered without its leading slash: %d patterns); family escaped (%d patterns): every such pattern of <=%d tokens over the literal alphabet extended by the escaped letters %q, and of <=%d tokens over %q, with at least one escaped literal; family long (%d patterns): every pattern with 3..%d parameters {:p,:p?,*,+} built as first literal {/,/a/} x separators {/,-,/a/} x trailing {none,/,/a,.a} x every assignment of %q; total %d patterns. (a) assignments meeting the side conditions x spelling variants %q x 8 configs x {default context, custom context installed with NewCtxFunc} judged must/must-not/unspecified, and on every request that reaches the handler Params(\"*\")/Params(\"+\") must equal Params(\"*1\")/Params(\"+1\"); (b) every filled path (side conditions NOT required, type-invalid values included), every variant path and (families main, escaped) every one-symbol deletion/insertion (symbols %q) of the type-valid filled paths x 8 configs: RoutePatternMatch vs lone-route app. A case is non-trivial when the pattern has at least one parameter and the oracle gave a verdict (not unspecified)",
+			"rule": fmt.Sprintf("family main: every delimited pattern of <=%d tokens (first token '/'+lit, then any of 12 literal tokens {/,-,.}x%q or a parameter {:p,:p?,*,+} never directly after a parameter)%s x every assignment of %q to its parameters (patterns of <=3 tokens also %q, and each of them a second time registered without its leading slash: %d patterns); family escaped (%d patterns): every such pattern of <=%d tokens over the literal alphabet extended by the escaped letters %q, and of <=%d tokens over %q, and of <=%d tokens over the literals that are one bare escaped special character %q, with at least one escaped literal; family long (%d patterns): every pattern with 3..%d parameters {:p,:p?,*,+} built as first literal {/,/a/} x separators {/,-,/a/} x trailing {none,/,/a,.a} x every assignment of %q; total %d patterns. (a) assignments meeting the side conditions x spelling variants %q x 8 configs x {default context, custom context installed with NewCtxFunc} judged must/must-not/unspecified, and on every request that reaches the handler Params(\"*\")/Params(\"+\") must equal Params(\"*1\")/Params(\"+1\"); (b) every filled path (side conditions NOT required, type-invalid values included), every variant path and (families main, escaped) every one-symbol deletion/insertion (symbols %q) of the type-valid filled paths x 8 configs: RoutePatternMatch vs lone-route app. A case is non-trivial when the pattern has at least one parameter and the oracle gave a verdict (not unspecified)",
 				maxTok, lits, map[bool]string{true: fmt.Sprintf(" plus every %d-token pattern whose literals are bare delimiters", extraTok), false: ""}[extraTok > maxTok], values, specialValues, nNoSlash,
-				nEscPats, escTok, escLits, escTokReduced, escLitsReduced, nLongPats, longMax, famLong.values, len(pats), variantNames, neighbourSyms),
+				nEscPats, escTok, escLits, escTokReduced, escLitsReduced, escTokBare, escLitsBare, nLongPats, longMax, famLong.values, len(pats), variantNames, neighbourSyms),
 			"samples": samples,
 			"bounds": map[string]any{"max_tokens": maxTok, "extra_tokens_reduced_literals": extraTok, "value_alphabet": values, "special_values_short_patterns": specialValues, "literal_alphabet": lits,
-				"escaped_literals": escLits, "escaped_max_tokens": escTok, "escaped_reduced_max_tokens": escTokReduced, "long_max_params": longMax, "long_values": famLong.values,
+				"escaped_literals": escLits, "escaped_bare_literals": escLitsBare, "escaped_bare_max_tokens": escTokBare, "escaped_max_tokens": escTok, "escaped_reduced_max_tokens": escTokReduced, "long_max_params": longMax, "long_values": famLong.values,
 				"neighbour_symbols": neighbourSyms, "patterns": len(pats), "configs": 8, "context_kinds": 2},
 		},
 		Assumptions: []string{
